@@ -1,10 +1,12 @@
 import PkVerif.Spec.Faults
 import PkVerif.Lemmas.RefProxy
 /-!
-C13 for proxycache: the fault-tolerant cache contract `FCaches`, proxycache over a fault-tolerant
-origin and such a cache (`proxy_fstep`, `proxyFRefinesRmSure`), and the one combination of failures
-the Go code does not survive (`proxy_failed_cache_remove_counterexample`): RemoveBlobs where the
-cache's removal fails without effect while the origin's removal takes effect.
+C13 for proxycache: the fault-tolerant cache contract `FCaches`, and proxycache over ANY
+fault-tolerant origin and ANY such cache is fault-tolerant (`proxy_fstep`, `proxyFRefines`).
+Finding F-C13-4 (fixed): the former RemoveBlobs ran the cache's and the origin's removal in
+parallel; `proxyParallelRmImpl` keeps that behaviour and
+`proxy_failed_cache_remove_counterexample` / `proxy_failed_cache_remove_not_FRefines` show what
+went wrong when the cache's removal failed without effect while the origin's took effect.
 -/
 namespace Pk.RefMap
 open Pk Pk.SMap
@@ -305,15 +307,17 @@ def PInv (s : (proxyImpl origin cache max).σ) : Prop :=
 
 def PQuiet (s : (proxyImpl origin cache max).σ) : Prop := Fo.Quiet s.1 ∧ Cc.Quiet s.2.1
 
+/-- what a step from `s` with result `r` (new state, answer) has to satisfy -/
+def PStepR (s : (proxyImpl origin cache max).σ) (op : Op)
+    (r : (proxyImpl origin cache max).σ × Out) : Prop :=
+  PInv Fo Cc max r.1 ∧
+  StepOK (Fo.abs s.1) (Fo.abs r.1.1) r.2 op ∧
+  (PQuiet Fo Cc max s →
+    r.2 = out (Fo.abs s.1) op ∧ Fo.abs r.1.1 = next (Fo.abs s.1) op ∧ PQuiet Fo Cc max r.1)
+
 /-- what a proxy step has to satisfy -/
 def PStep (s : (proxyImpl origin cache max).σ) (op : Op) : Prop :=
-  PInv Fo Cc max ((proxyImpl origin cache max).step s op).1 ∧
-  StepOK (Fo.abs s.1) (Fo.abs ((proxyImpl origin cache max).step s op).1.1)
-    ((proxyImpl origin cache max).step s op).2 op ∧
-  (PQuiet Fo Cc max s →
-    ((proxyImpl origin cache max).step s op).2 = out (Fo.abs s.1) op ∧
-    Fo.abs ((proxyImpl origin cache max).step s op).1.1 = next (Fo.abs s.1) op ∧
-    PQuiet Fo Cc max ((proxyImpl origin cache max).step s op).1)
+  PStepR Fo Cc max s op ((proxyImpl origin cache max).step s op)
 
 theorem proxy_enum (os : origin.σ) (cs : cache.σ) (b : ProxyBook) (a : Bytes) (l : Nat)
     (hI : PInv Fo Cc max (os, cs, b)) : PStep Fo Cc max (os, cs, b) (.enum a l) := by
@@ -321,7 +325,7 @@ theorem proxy_enum (os : origin.σ) (cs : cache.σ) (b : ProxyBook) (a : Bytes) 
   obtain ⟨hoi, hO⟩ := ostep Fo os (.enum a l) hR trivial
   have hsub : ∀ m, Fo.abs (origin.step os (.enum a l)).1 = m → Sub (Cc.abs cs) m → 
       Sub (Cc.abs cs) (Fo.abs (origin.step os (.enum a l)).1) := fun m e h => e ▸ h
-  unfold PStep PInv PQuiet
+  unfold PStep PStepR PInv PQuiet
   simp only [proxyImpl]
   rcases hO with ⟨ho, ha, hq⟩ | ⟨ho, ha, hq⟩
   · exact mk_exact ⟨hoi, hC, hsub _ ha hS⟩ ho ha (fun q => ⟨hq q.1, q.2⟩)
@@ -335,7 +339,7 @@ theorem proxy_fetch (os : origin.σ) (cs : cache.σ) (b : ProxyBook) (k : Bytes)
   obtain ⟨hci, hcs, hcq⟩ := cstep Cc cs (.fetch k) hC trivial
   have hcf := fun v => Cc.fetch_ok cs k v hC
   obtain ⟨hoi, hO⟩ := ostep Fo os (.fetch k) hR trivial
-  unfold PStep PInv PQuiet
+  unfold PStep PStepR PInv PQuiet
   simp only [proxyImpl]
   generalize cache.step cs (.fetch k) = pc at hci hcs hcq hcf
   obtain ⟨cs1, oc⟩ := pc
@@ -398,7 +402,7 @@ theorem proxy_stat (os : origin.σ) (cs : cache.σ) (b : ProxyBook) (k : Bytes)
   obtain ⟨hci, hcs, hcq⟩ := cstep Cc cs (.stat k) hC trivial
   have hcf := fun n => Cc.stat_ok cs k n hC
   obtain ⟨hoi, hO⟩ := ostep Fo os (.stat k) hR trivial
-  unfold PStep PInv PQuiet
+  unfold PStep PStepR PInv PQuiet
   simp only [proxyImpl]
   generalize cache.step cs (.stat k) = pc at hci hcs hcq hcf
   obtain ⟨cs1, oc⟩ := pc
@@ -459,7 +463,7 @@ theorem proxy_recv (os : origin.σ) (cs : cache.σ) (b : ProxyBook) (k v : Bytes
   have hS1 : Sub (Cc.abs (cache.step cs (.recv k v)).1) (next (Fo.abs os) (.recv k v)) :=
     hcs.trans (sub_ins_next hGo hS k v hop)
   clear hcs
-  unfold PStep PInv PQuiet
+  unfold PStep PStepR PInv PQuiet
   simp only [proxyImpl]
   generalize origin.step os (.recv k v) = po at hoi hO
   obtain ⟨os1, oo⟩ := po
@@ -488,11 +492,10 @@ theorem proxy_recv (os : origin.σ) (cs : cache.σ) (b : ProxyBook) (k v : Bytes
     · rw [ha]; exact hS
     · rw [ha]; exact hS0
 
-/-- remove: the only step that needs more than the cache contract – either the cache's removal took
-effect, or the origin's did not -/
+/-- remove (cache first, the origin only if the cache's removal answered `.ok`): a failing cache
+removal leaves the origin untouched, so the cache stays within the origin whether or not the failed
+removal took effect -/
 theorem proxy_rm (os : origin.σ) (cs : cache.σ) (b : ProxyBook) (k : Bytes)
-    (hrm : Sub (Cc.abs (cache.step cs (.rm k)).1) (del k (Cc.abs cs)) ∨
-      Fo.abs (origin.step os (.rm k)).1 = Fo.abs os)
     (hI : PInv Fo Cc max (os, cs, b)) : PStep Fo Cc max (os, cs, b) (.rm k) := by
   obtain ⟨hR, hC, hS⟩ := hI
   have hGo := Fo.good os hR
@@ -502,8 +505,119 @@ theorem proxy_rm (os : origin.σ) (cs : cache.σ) (b : ProxyBook) (k : Bytes)
   obtain ⟨hoi, hO⟩ := ostep Fo os (.rm k) hR trivial
   have hdd : Sub (del k (Cc.abs cs)) (del k (Fo.abs os)) := sub_del_del k hGc.1 hGo.1 hS
   have hd : Sub (del k (Cc.abs cs)) (Fo.abs os) := (sub_del_self k hGc.1).trans hS
-  unfold PStep PInv PQuiet
+  unfold PStep PStepR PInv PQuiet
   simp only [proxyImpl]
+  generalize cache.step cs (.rm k) = pr at hci hcs hcq hcr
+  obtain ⟨cs1, orr⟩ := pr
+  simp only [grow, out] at hci hcs hcq hcr
+  have hS1 : Sub (Cc.abs cs1) (Fo.abs os) := hcs.trans hS
+  cases orr
+  case ok =>
+    have hs := hcr rfl
+    simp only
+    generalize origin.step os (.rm k) = po at hoi hO
+    obtain ⟨os1, oo⟩ := po
+    simp only [next, out] at hoi hO
+    rcases hO with ⟨ho, ha, hq⟩ | ⟨ho, ha, hq⟩
+    · subst ho
+      simp only
+      exact mk_exact ⟨hoi, hci, by rw [ha]; exact hs.trans hdd⟩ rfl ha
+        (fun q => ⟨hq q.1, (hcq q.2).2⟩)
+    · subst ho
+      simp only
+      refine mk_err ⟨hoi, hci, ?_⟩ rfl ha (fun q => hq q.1)
+      rcases ha with ha | ha
+      · rw [ha]; exact hs.trans hd
+      · rw [ha]; exact hs.trans hdd
+  all_goals
+    simp only
+    refine mk_err ⟨hR, hci, hS1⟩ rfl (Or.inl rfl) (fun q => ?_)
+    have := (hcq q.2).1
+    cases this
+
+/-- every proxycache step, with any failures in origin and cache, keeps the invariant, is exact or
+answers `.err` leaving the before- or after-contents, and is exact from quiet states -/
+theorem proxy_fstep (s : (proxyImpl origin cache max).σ) (op : Op) (hop : op.WK content)
+    (hI : PInv Fo Cc max s) : PStep Fo Cc max s op := by
+  obtain ⟨os, cs, b⟩ := s
+  cases op with
+  | recv k v => exact proxy_recv Fo Cc max os cs b k v hop hI
+  | fetch k => exact proxy_fetch Fo Cc max os cs b k hI
+  | stat k => exact proxy_stat Fo Cc max os cs b k hI
+  | enum a l => exact proxy_enum Fo Cc max os cs b a l hI
+  | rm k => exact proxy_rm Fo Cc max os cs b k hI
+
+end Proxy
+
+/-- C13 for proxycache, at full strength: over ANY origin that may fail (`FRefines`) and ANY cache
+that may fail (`FCaches`), proxycache is fault-tolerant.  The abstract map is the origin's; quiet =
+origin quiet and cache quiet. -/
+def proxyFRefines {content : Bytes → Bytes} {origin cache : Impl} (Fo : FRefines content origin)
+    (Cc : FCaches content cache) (max : Nat) : FRefines content (proxyImpl origin cache max) where
+  abs := fun s => Fo.abs s.1
+  Inv := PInv Fo Cc max
+  Quiet := PQuiet Fo Cc max
+  init_inv := ⟨Fo.init_inv, Cc.init_inv, by
+    show Sub (Cc.abs cache.init) _
+    rw [Cc.init_abs]; intro k v h; simp [SMap.get] at h⟩
+  init_abs := Fo.init_abs
+  good := fun s h => Fo.good s.1 h.1
+  step_ok := fun s op h hop =>
+    let p := proxy_fstep Fo Cc max s op hop h
+    ⟨p.1, p.2.1⟩
+  quiet_step := fun s op h hq hop => (proxy_fstep Fo Cc max s op hop h).2.2 hq
+
+/-- instance: a failing memory origin and a failing evicting memory cache, any schedules -/
+example (content : Bytes → Bytes) (s1 s2 : List Fault) (cmax max : Nat) :
+    FRefines content (proxyImpl (faultLeaf memImpl s1) (faultLeaf (memCacheImpl cmax) s2) max) :=
+  proxyFRefines (faultLeafF (memRefines content) s1)
+    (faultLeafFCachesAny (memCacheCaches content cmax) s2) max
+
+/-- instance: a proxycache whose cache is itself a failing store that refines the map -/
+example (content : Bytes → Bytes) (s1 s2 : List Fault) (max : Nat) :
+    FRefines content (proxyImpl (faultLeaf memImpl s1) (faultLeaf memImpl s2) max) :=
+  proxyFRefines (faultLeafF (memRefines content) s1)
+    (faultLeafFCachesAny (memRefines content).toCaches s2) max
+
+/-! ### finding F-C13-4 (fixed in /repo commit 938eb3a): the former parallel RemoveBlobs
+
+Before the fix RemoveBlobs ran the cache's and the origin's removal in parallel and returned the
+first error.  `proxyParallelRmImpl` is proxycache with that remove.  A cache removal that fails
+without effect while the origin's takes effect leaves the cache serving a blob the origin no longer
+has. -/
+
+/-- proxycache with the former remove: both removals always run -/
+def proxyParallelRmImpl (origin cache : Impl) (max : Nat) : Impl where
+  σ := origin.σ × cache.σ × ProxyBook
+  init := (origin.init, cache.init, ⟨[], 0⟩)
+  step := fun (os, cs, b) op =>
+    match op with
+    | .rm k =>
+      match cache.step cs (.rm k), origin.step os (.rm k) with
+      | (cs1, .ok), (os1, .ok) => ((os1, cs1, b), .ok)
+      | (cs1, _), (os1, _) => ((os1, cs1, b), .err)
+    | op => (proxyImpl origin cache max).step (os, cs, b) op
+
+/-- what the parallel remove needed beyond the cache contract: either the cache's removal took
+effect (whatever it answered), or the origin's did not -/
+theorem proxyParallelRm_rm {content : Bytes → Bytes} {origin cache : Impl}
+    (Fo : FRefines content origin) (Cc : FCaches content cache) (max : Nat)
+    (os : origin.σ) (cs : cache.σ) (b : ProxyBook) (k : Bytes)
+    (hrm : Sub (Cc.abs (cache.step cs (.rm k)).1) (del k (Cc.abs cs)) ∨
+      Fo.abs (origin.step os (.rm k)).1 = Fo.abs os)
+    (hI : PInv Fo Cc max (os, cs, b)) :
+    PStepR Fo Cc max (os, cs, b) (.rm k)
+      ((proxyParallelRmImpl origin cache max).step (os, cs, b) (.rm k)) := by
+  obtain ⟨hR, hC, hS⟩ := hI
+  have hGo := Fo.good os hR
+  have hGc := Cc.good cs hC
+  obtain ⟨hci, hcs, hcq⟩ := cstep Cc cs (.rm k) hC trivial
+  have hcr := Cc.rm_ok cs k hC
+  obtain ⟨hoi, hO⟩ := ostep Fo os (.rm k) hR trivial
+  have hdd : Sub (del k (Cc.abs cs)) (del k (Fo.abs os)) := sub_del_del k hGc.1 hGo.1 hS
+  have hd : Sub (del k (Cc.abs cs)) (Fo.abs os) := (sub_del_self k hGc.1).trans hS
+  unfold PStepR PInv PQuiet
+  simp only [proxyParallelRmImpl]
   generalize origin.step os (.rm k) = po at hoi hO hrm
   obtain ⟨os1, oo⟩ := po
   generalize cache.step cs (.rm k) = pr at hci hcs hcq hcr hrm
@@ -542,67 +656,6 @@ theorem proxy_rm (os : origin.σ) (cs : cache.σ) (b : ProxyBook) (k : Bytes)
     rcases hO with ⟨ho, _, _⟩ | ⟨ho, _, _⟩ <;> subst ho <;> simp only <;>
       exact mk_err ⟨hoi, hci, hsub⟩ rfl ha hnq
 
-/-- the one situation a proxy step does not survive is excluded: on `.rm k`, either the cache's
-removal took effect (whatever it answered) or the origin's did not -/
-def RmEffective (s : (proxyImpl origin cache max).σ) (op : Op) : Prop :=
-  ∀ k, op = .rm k →
-    Sub (Cc.abs (cache.step s.2.1 (.rm k)).1) (del k (Cc.abs s.2.1)) ∨
-    Fo.abs (origin.step s.1 (.rm k)).1 = Fo.abs s.1
-
-/-- every proxycache step, with any failures in origin and cache, keeps the invariant, is exact or
-answers `.err` leaving the before- or after-contents, and is exact from quiet states – provided
-`RmEffective` -/
-theorem proxy_fstep (s : (proxyImpl origin cache max).σ) (op : Op) (hop : op.WK content)
-    (hI : PInv Fo Cc max s) (hrm : RmEffective Fo Cc max s op) : PStep Fo Cc max s op := by
-  obtain ⟨os, cs, b⟩ := s
-  cases op with
-  | recv k v => exact proxy_recv Fo Cc max os cs b k v hop hI
-  | fetch k => exact proxy_fetch Fo Cc max os cs b k hI
-  | stat k => exact proxy_stat Fo Cc max os cs b k hI
-  | enum a l => exact proxy_enum Fo Cc max os cs b a l hI
-  | rm k => exact proxy_rm Fo Cc max os cs b k (hrm k rfl) hI
-
-theorem rmEffective_of_rmSure (hrm : Cc.RmSure) (s : (proxyImpl origin cache max).σ) (op : Op)
-    (hI : PInv Fo Cc max s) : RmEffective Fo Cc max s op :=
-  fun k _ => Or.inl (hrm s.2.1 k hI.2.1)
-
-end Proxy
-
-/-- proxycache over an origin that may fail and a cache that may fail is fault-tolerant, PROVIDED the
-cache's remove calls always take effect (`RmSure`: they may lose their answer, not their effect).
-Without that proviso the statement is false: `proxy_failed_cache_remove_counterexample`. -/
-def proxyFRefinesRmSure {content : Bytes → Bytes} {origin cache : Impl} (Fo : FRefines content origin)
-    (Cc : FCaches content cache) (hrm : Cc.RmSure) (max : Nat) :
-    FRefines content (proxyImpl origin cache max) where
-  abs := fun s => Fo.abs s.1
-  Inv := PInv Fo Cc max
-  Quiet := PQuiet Fo Cc max
-  init_inv := ⟨Fo.init_inv, Cc.init_inv, by
-    show Sub (Cc.abs cache.init) _
-    rw [Cc.init_abs]; intro k v h; simp [SMap.get] at h⟩
-  init_abs := Fo.init_abs
-  good := fun s h => Fo.good s.1 h.1
-  step_ok := fun s op h hop =>
-    let p := proxy_fstep Fo Cc max s op hop h (rmEffective_of_rmSure Fo Cc max hrm s op h)
-    ⟨p.1, p.2.1⟩
-  quiet_step := fun s op h hq hop =>
-    (proxy_fstep Fo Cc max s op hop h (rmEffective_of_rmSure Fo Cc max hrm s op h)).2.2 hq
-
-/-- instance: a failing memory origin, and the evicting memory cache with lost answers -/
-example (content : Bytes → Bytes) (s1 s2 : List Fault) (hs : ∀ f ∈ s2, f ≠ Fault.before)
-    (cmax max : Nat) :
-    FRefines content (proxyImpl (faultLeaf memImpl s1) (faultLeaf (memCacheImpl cmax) s2) max) :=
-  proxyFRefinesRmSure (faultLeafF (memRefines content) s1)
-    (faultLeafFCachesNB (memCacheCaches content cmax) s2 hs)
-    (faultLeafFCachesNB_rmSure (memCacheCaches content cmax) s2 hs) max
-
-/-- the cache contract itself holds for the evicting memory cache under ANY failure schedule -/
-example (content : Bytes → Bytes) (s2 : List Fault) (cmax : Nat) :
-    FCaches content (faultLeaf (memCacheImpl cmax) s2) :=
-  faultLeafFCachesAny (memCacheCaches content cmax) s2
-
-/-! ### the finding: a cache removal that fails without effect while the origin's succeeds -/
-
 /-- no map both holds a blob and enumerates as empty -/
 theorem no_map_fetch_enum (m : SMap Bytes) (k v : Bytes) (hk : k ≠ []) (n : Nat)
     (hf : out m (.fetch k) = .bytes v) : out m (.enum [] (n + 1)) ≠ .refs [] := by
@@ -621,10 +674,11 @@ theorem no_map_fetch_enum (m : SMap Bytes) (k v : Bytes) (hk : k ≠ []) (n : Na
 
 /-- the proxy of the counterexample: memory origin, memory cache whose second call fails without
 effect, room for 100 bytes -/
-def badProxy : Impl := proxyImpl memImpl (faultLeaf memImpl [Fault.none, Fault.before]) 100
+def badProxy : Impl :=
+  proxyParallelRmImpl memImpl (faultLeaf memImpl [Fault.none, Fault.before]) 100
 
-/-- RemoveBlobs (proxycache.go:243) runs the cache's and the origin's removal in parallel and
-returns the first error.  History: receive blob `[1]`; remove it, where the cache's removal fails
+/-- The former RemoveBlobs ran the cache's and the origin's removal in parallel and returned the
+first error.  History: receive blob `[1]`; remove it, where the cache's removal fails
 without effect (the cache's 2nd call) and the origin's succeeds: the caller sees `.err`.  From then
 on, with no failure pending anywhere, the proxy serves the blob on Fetch and Stat (cache hits) but
 does not enumerate it (Enumerate asks the origin only) – no map, neither the before- nor the
@@ -665,5 +719,14 @@ theorem proxy_failed_cache_remove_not_FRefines (content : Bytes → Bytes) (hc :
   injection hr with h1 h2
   injection h2 with h2 _
   exact no_map_fetch_enum _ [1] [7] (by decide) 9 h1.symm h2.symm
+
+/-- the repaired proxycache on the same history and failure schedule: the failed remove leaves the
+before-state, consistently on every read path -/
+theorem proxy_failed_cache_remove_fixed :
+    (proxyImpl memImpl (faultLeaf memImpl [Fault.none, Fault.before]) 100).run
+        (proxyImpl memImpl (faultLeaf memImpl [Fault.none, Fault.before]) 100).init
+        [.recv [1] [7], .rm [1], .fetch [1], .stat [1], .enum [] 10, .rm [1], .fetch [1], .enum [] 10] =
+      [.sized 1, .err, .bytes [7], .sized 1, .refs [([1], 1)], .ok, .notExist, .refs []] := by
+  decide
 
 end Pk.Stores
